@@ -13,6 +13,7 @@ import (
 	"fmt"
 	"io"
 	"log"
+	"os"
 	"runtime"
 	"strings"
 	"time"
@@ -37,6 +38,11 @@ func main() {
 	zerolog.SetGlobalLevel(zerolog.Disabled)
 	out := hx.Open()
 	defer out.Close()
+	defer func() {
+		for _, d := range tmpDirs {
+			os.RemoveAll(d)
+		}
+	}()
 	if lines := hx.ReplayLines(); lines != nil {
 		for _, l := range lines {
 			if len(l) < 2 {
